@@ -235,6 +235,7 @@ def run(ctx: Ctx) -> None:
     from ..rules import memo
     memo.rule_memo_sound(ctx, [RC, STABF, TR])
     memo.rule_falsy_zero(ctx, [RC, STABF, TR])
+    memo.rule_arg_names(ctx, [RC, STABF, TR])
     effects.rule_consumed_tableau(ctx, [RC, STABF, "graphiq/backends/stabilizer/functions/metric.py"])
     ctx.floor("reverse.table", 18)
     ctx.floor("emit.mirror", 6)
